@@ -472,6 +472,20 @@ func runC10(c *Ctx) {
 			_, a := callArgs(&ps.Call)
 			return vFieldLoadO("rt.ClientOperation", "Schemes")(a[0])
 		}))
+		if !ok {
+			// a fallback to the constant "http" on the (never taken) branch "the scheme is still empty"
+			if k, isK := constString(st.Val); isK && k == "http" {
+				isScheme := func(v ssa.Value) bool {
+					_, okF := fieldLoad(v, "net/url.URL", "Scheme")
+					if okF {
+						return true
+					}
+					okP, _ := allOrigins(v, oCall(-1, "(*rt/client.Runtime).pickScheme"))
+					return okP
+				}
+				ok = guardedBy(st, nil, factEqString(isScheme, "", true))
+			}
+		}
 		c.obI("R10.3", st, "scheme-from-pickScheme", ok, "the URL scheme is pickScheme(operation.Schemes)", "")
 	}
 	for _, fld := range []struct{ t, f string }{{"net/url.URL", "Host"}, {"net/http.Request", "Host"}, {"net/url.URL", "Scheme"}} {
